@@ -23,6 +23,11 @@ def explore(ctx):
     n = 140 if ctx.quick() else 1400
     for it in range(n):
         sc = scengen.gen_scenario(rnd, 'faults' if it % 3 else 'contract')
+        if it % 7 == 3:
+            # the pass cache is on and contents come back (a pass undoes what another removed): a replay starts no
+            # candidate and accepts nothing
+            sc = scengen.gen_revisit(rnd, k=rnd.choice([1, 2]))
+            sc['cfg']['no_cache'] = False
         if it % 4 == 1:
             sc['passes'] = sc['passes'] + [dict(p) for p in sc['passes']]      # the same passes again (second main-loop iteration)
         # every tenth run the wall clock (time.time) is stepped back and forth by an hour while passes run: only the
